@@ -50,7 +50,7 @@ FILES = {
 }
 EMIT = ["IncrementalPFI", "IncrementalSage"]
 
-LEAN_TY = {"ListInst": "List (Inst V)", "ListY": "List Y",
+LEAN_TY = {"Str": "String", "ListInst": "List (Inst V)", "ListY": "List Y",
            "DictV": "Dict V", "Out": "O", "ListOut": "List O",
            "K": "K", "Nat": "Nat", "Bool": "Bool", "DictK": "Dict K", "ListDictK": "List (Dict K)", "ListK": "List K",
            "ListNat": "List Nat", "MV": "MV K", "Tr": "Tr K", "Inst": "Inst V", "Y": "Y", "Unit": "Unit"}
@@ -843,14 +843,14 @@ class Fn:
             self.err(s, "condition is not boolean")
         # names that are first bound on EVERY path through this if/else are visible after it in Python: declare them before the `if`
         # (the placeholder value can never be read, every path overwrites it)
-        hoist = [n_ for n_ in sorted(self.assigned_on_all_paths(s.body) & self.assigned_on_all_paths(s.orelse)) if n_ not in self.env] \
-            if s.orelse else []
+        hoist = [n_ for n_ in sorted(self.bound_after_if(s)) if n_ not in self.env] if s.orelse else []
         pre = []
         if hoist:
             snap = (dict(self.env), self.counter, list(self.deferred_types), dict(self.last_decl_types), self.uses_perm,
                     getattr(self, "uses_draws", False), getattr(self, "w", None), getattr(self, "world_used", False))
             self.last_decl_types = {}
-            self.block(s.body)                     # trial translation of the first branch, only to learn the types
+            # trial translation of a branch that reaches the end, only to learn the types
+            self.block(s.body if self.assigned_on_all_paths(s.body) is not None else s.orelse)
             types = dict(self.last_decl_types)
             (self.env, self.counter, self.deferred_types, self.last_decl_types, self.uses_perm, ud, self.w, self.world_used) = snap
             if hasattr(self, "uses_draws"):
@@ -877,13 +877,26 @@ class Fn:
 
     @staticmethod
     def assigned_on_all_paths(stmts):
+        """names bound on every path through `stmts` that reaches their end; None when no path does (it ends in raise / return)"""
         out = set()
         for st in stmts:
+            if isinstance(st, (ast.Raise, ast.Return)):
+                return None
             if isinstance(st, ast.Assign) and len(st.targets) == 1 and isinstance(st.targets[0], ast.Name):
                 out.add(st.targets[0].id)
             elif isinstance(st, ast.If) and st.orelse:
-                out |= Fn.assigned_on_all_paths(st.body) & Fn.assigned_on_all_paths(st.orelse)
+                a, b = Fn.assigned_on_all_paths(st.body), Fn.assigned_on_all_paths(st.orelse)
+                if a is None and b is None:
+                    return None
+                out |= (b if a is None else (a if b is None else a & b))
         return out
+
+    @staticmethod
+    def bound_after_if(s):
+        a, b = Fn.assigned_on_all_paths(s.body), Fn.assigned_on_all_paths(s.orelse)
+        if a is None and b is None:
+            return set()
+        return b if a is None else (a if b is None else a & b)
 
     def for_stmt(self, s, scope):
         if s.orelse or not isinstance(s.target, ast.Name):
@@ -1344,6 +1357,101 @@ def translate_batch(src):
         [BATCH_FILES[cname]], sha
 
 
+# ----------------------------------------------------------------------------------------------------------------
+# BaseIncrementalFeatureImportance._normalize_importance_values (ixai/explainer/base.py): a pure static function; `do`-block over
+# `Except String` (a `raise X(..)` is `throw "X"`).  Vocabulary: list(d.values()) -> d.map Prod.snd ; max / min / sum of a list of
+# numbers -> maxL / minL / lsum ; `mode == 'delta'` -> decide (mode = "delta") with `mode : String` ; x == 0 on numbers -> decide (x = 0)
+# ----------------------------------------------------------------------------------------------------------------
+class NormFn(BatchFn):
+    def expr(self, e, allow_eff=True):
+        if isinstance(e, ast.Constant) and isinstance(e.value, str):
+            return '"' + e.value.replace('\\', '\\\\').replace('"', '\\"') + '"', "Str", False
+        if isinstance(e, ast.Constant) and isinstance(e.value, float) and e.value != int(e.value):
+            self.err(e, "unsupported constant")
+        return super().expr(e, allow_eff)
+
+    def compare(self, e, allow_eff):
+        if len(e.ops) == 1 and isinstance(e.ops[0], (ast.Eq, ast.NotEq)):
+            a, at, _ = self.expr(e.left, allow_eff)
+            b, bt, _ = self.expr(e.comparators[0], allow_eff)
+            at, bt = norm(at), norm(bt)
+            sym = "=" if isinstance(e.ops[0], ast.Eq) else "≠"
+            if at == "Str" and bt == "Str":
+                return f"decide ({a} {sym} {b})", "Bool", False
+            if "K" in (at, bt) and at in ("K", "IntLit", "Nat") and bt in ("K", "IntLit", "Nat"):
+                return f"decide ({self.asK(a, at, e)} {sym} {self.asK(b, bt, e)})", "Bool", False
+        return super().compare(e, allow_eff)
+
+    def call(self, e, allow_eff):
+        name = ast.unparse(e.func)
+        if name == "list" and len(e.args) == 1 and isinstance(e.args[0], ast.Call) and isinstance(e.args[0].func, ast.Attribute) \
+                and e.args[0].func.attr == "values" and not e.args[0].args:
+            d, dt, _ = self.expr(e.args[0].func.value, allow_eff)
+            if norm(dt) == "DictK":
+                return f"({d}.map Prod.snd)", "ListK", False
+        if name in ("max", "min", "sum") and len(e.args) == 1 and not e.keywords:
+            v, t, _ = self.expr(e.args[0], allow_eff)
+            if norm(t) == "ListK":
+                return f"({ {'max': 'maxL', 'min': 'minL', 'sum': 'lsum'}[name] } {v})", "K", False
+        return super().call(e, allow_eff)
+
+    def self_attr(self, e):
+        self.err(e, "a static function does not read the explainer")
+
+    def stmt(self, s, scope):
+        if isinstance(s, ast.Raise):
+            exc = s.exc.func if isinstance(s.exc, ast.Call) else s.exc
+            return [f'throw "{ast.unparse(exc) if exc is not None else "Exception"}"']
+        return super().stmt(s, scope)
+
+    @staticmethod
+    def assigned_on_all_paths(stmts):
+        out = Fn.assigned_on_all_paths(stmts)
+        return out
+
+
+def _terminates(stmts):
+    return bool(stmts) and isinstance(stmts[-1], (ast.Raise, ast.Return))
+
+
+def translate_normalize(src_repo):
+    rel = "ixai/explainer/base.py"
+    text = open(os.path.join(src_repo, rel)).read()
+    tree = ast.parse(text, filename=rel)
+    cls = [n for n in tree.body if isinstance(n, ast.ClassDef) and n.name == "BaseIncrementalFeatureImportance"]
+    fns = [n for n in (cls[0].body if cls else []) if isinstance(n, ast.FunctionDef) and n.name == "_normalize_importance_values"]
+    if len(fns) != 1:
+        raise Unsupported(f"{rel}: _normalize_importance_values not found")
+    fn = fns[0]
+    params = [a.arg for a in fn.args.args]
+    if params != ["importance_values", "mode"]:
+        raise Unsupported(f"{rel}:{fn.lineno}: signature of _normalize_importance_values is {params}")
+
+    class S_:
+        pass
+    src = S_()
+    src.find_method = lambda c, m: (None, None, None)
+    src.find_property = lambda c, m: None
+    f = NormFn(src, "BaseIncrementalFeatureImportance", fn, rel)
+    f.helper_mode, f.ret_type = True, None
+    f.deferred_types = []
+    f.env["importance_values"] = Var("importance_values", "DictK")
+    f.env["mode"] = Var("mode", "Str")
+    body = f.block(fn.body, f.new_scope())
+    if f.ret_type != "DictK":
+        raise Unsupported(f"{rel}:{fn.lineno}: _normalize_importance_values returns {f.ret_type}")
+    btxt = "\n".join("  " + x for x in body)
+    for ph, ty in f.deferred_types:
+        btxt = btxt.replace(ph, lean_ty(ty))
+    sha = hashlib.sha256(text.encode()).hexdigest()[:16]
+    head = (f"/-\n  GENERATED by tools/py2lean_eff.py from {rel} — do not edit.\n  sha256: {sha}\n"
+            "  `_normalize_importance_values` statement by statement; a `raise` is a `throw` in `Except String`.\n-/\n"
+            "import IxaiVerif.Model.Explainer\n\nnamespace Ixai.Gen\nopen Ixai\n\n"
+            "variable {K : Type} [Add K] [Sub K] [Mul K] [Div K] [NatCast K] [OfNat K 0] [OfNat K 1] [RealOps K] [DecidableEq K] [LE K] [DecidableLE K]\n\n"
+            "def normalize_importance_values (importance_values : Dict K) (mode : String) : Except String (Dict K) := do\n")
+    return head + btxt + "\n\nend Ixai.Gen\n", [rel], sha
+
+
 class Source:
     def __init__(self, repo, files=None):
         self.repo = repo
@@ -1455,6 +1563,16 @@ def generate(repo=None, outdir=None):
         report["BatchSage"] = {"sources": rels, "sha256": sha, "changed": old != text}
     except (Unsupported, SyntaxError, OSError) as ex:
         report["BatchSage"] = {"sources": [BATCH_FILES["BatchSage"]], "sha256": "", "changed": False, "error": str(ex)}
+    try:
+        text, rels, sha = translate_normalize(repo)
+        path = os.path.join(outdir, "NormalizeImportance.lean")
+        old = open(path).read() if os.path.exists(path) else None
+        if old != text:
+            with open(path, "w") as fh:
+                fh.write(text)
+        report["NormalizeImportance"] = {"sources": rels, "sha256": sha, "changed": old != text}
+    except (Unsupported, SyntaxError, OSError, IndexError) as ex:
+        report["NormalizeImportance"] = {"sources": ["ixai/explainer/base.py"], "sha256": "", "changed": False, "error": str(ex)}
     try:
         isrc = Source(repo, IMP_FILES)
     except (Unsupported, SyntaxError, OSError) as ex:
